@@ -6,7 +6,10 @@ RULE = ('for every lattice size up to the bound and every ordered pair of same-t
         'planar code the boundary-virtual ones): path bsf, translation, decoder distance, virtual plaquette, plaquette '
         'support, syndrome-bit round trip, IndexError cases — compared exactly with the Lean model; and the property '
         'itself (syndrome of the path = in-lattice endpoints, weight = distance, translation reaches b, symmetric '
-        'length) evaluated directly on the real code for every pair. non-trivial = a != b; distinct = protocol line')
+        'length) evaluated directly on the real code for every pair; the same paths / plaquettes / site writes (all '
+        'ordered same-type pairs incl. every boundary-virtual plaquette, every index in a margin of 2) computed by a '
+        'child `python -O` interpreter, compared with the in-process values and judged by a qecsim-free statement of '
+        'the geometry. non-trivial = a != b; distinct = protocol line')
 
 FAMILIES = ['planar', 'toric', 'rotatedtoric']
 
@@ -29,6 +32,11 @@ def run(ctx):
                     pair_budget=None if not ctx.quick() else 4000)
         done.append(fam)
     ctx.extra['families'] = done
+    if not only:
+        # interpreter mode as an input (qecsim documents `python -O`): paths / plaquettes / site writes computed by a child
+        # `python -O` (thorough: also -OO) are compared with the in-process ones and the property is evaluated on them
+        from qv import optmode
+        optmode.probe_c15(ctx)
     ctx.exhaustive = False
     return ctx.finish(RULE, search=search)
 
